@@ -50,6 +50,31 @@ class SymWalk:
                     return copy.deepcopy(env[n.id])
                 return n
 
+            def visit_BinOp(self, n):
+                n = self.generic_visit(n)
+                if isinstance(n.left, ast.Constant) and isinstance(n.right, ast.Constant) and \
+                        isinstance(n.left.value, int) and isinstance(n.right.value, int) and \
+                        not isinstance(n.left.value, bool) and not isinstance(n.right.value, bool):
+                    a, b = n.left.value, n.right.value
+                    try:
+                        if isinstance(n.op, ast.Add):
+                            return ast.Constant(value=a + b)
+                        if isinstance(n.op, ast.Sub):
+                            return ast.Constant(value=a - b)
+                        if isinstance(n.op, ast.Mult) and abs(a * b) < 2 ** 64:
+                            return ast.Constant(value=a * b)
+                        if isinstance(n.op, ast.LShift) and 0 <= b <= 64:
+                            return ast.Constant(value=a << b)
+                        if isinstance(n.op, ast.Pow) and 0 <= b <= 64:
+                            return ast.Constant(value=a ** b)
+                        if isinstance(n.op, ast.BitAnd):
+                            return ast.Constant(value=a & b)
+                        if isinstance(n.op, ast.BitOr):
+                            return ast.Constant(value=a | b)
+                    except Exception:
+                        return n
+                return n
+
             def visit_JoinedStr(self, n):
                 n = self.generic_visit(n)
                 # fold f-strings whose holes became constants
